@@ -277,7 +277,7 @@ theorem stepC_inv {s s' : State} {order : List Nat} (i : Inv s) (h : stepC s ord
         case phi => exact phi
         case l1 => exact l1
         case e0 => exact e0
-      · constructor <;> simp [holdsC, pend, hmu, hR]
+      · constructor <;> simp [holdsC, pend, hR]
         case curIn => exact curIn
         case j1 => exact j1
         case okc => intro h1; exact okc (Or.inl h1)
